@@ -318,15 +318,17 @@ def unchangedWords (left right : List α) : List (Nat × Nat) :=
 
 end Core
 
-/-- `intersect_unchanged_words`: `merge_join_by` on the base position, keeping `both`. -/
+/-- `intersect_unchanged_words`: `merge_join_by` on the base position, keeping `both`.
+For every current entry `(b, os)` the new entries with a smaller base position are skipped
+(`Left`/`Right` items of the merge join are dropped); on a tie the other position is appended. -/
 def intersectUnchangedWords : List (Nat × List Nat) → List (Nat × Nat) → List (Nat × List Nat)
   | [], _ => []
-  | _ :: _, [] => []
-  | (b, os) :: cs, (nb, no) :: ns =>
-    if b < nb then intersectUnchangedWords cs ((nb, no) :: ns)
-    else if nb < b then intersectUnchangedWords ((b, os) :: cs) ns
-    else (b, os ++ [no]) :: intersectUnchangedWords cs ns
-termination_by cur new => cur.length + new.length
+  | (b, os) :: cs, new =>
+    match new.dropWhile (fun p => p.1 < b) with
+    | [] => []
+    | (nb, no) :: ns =>
+      if nb = b then (b, os ++ [no]) :: intersectUnchangedWords cs ns
+      else intersectUnchangedWords cs ((nb, no) :: ns)
 
 /-! ### `ContentDiff` -/
 
